@@ -7,6 +7,8 @@ from harness.refmodel import ref_groups, ref_agg, freeze, same
 S = load()
 
 PROPERTY = "C13"
+LEVEL_TEXT = 'Differential exploration: window() equals aggregate() joined back on the key, plus the reference model for single built-ins.'
+LEVEL_NOTE = 'As C12.'
 DESIGN_REF = "DESIGN.md §5 C13"
 ENGINE = "relational"
 TECHNIQUE = "property-based testing: window() vs aggregate() joined back on the partition key (differential), plus the reference partition model for the built-ins"
